@@ -3,6 +3,7 @@ package main
 // C13 — relay byte conservation: lock / order discipline.
 
 import (
+	"fmt"
 	"go/constant"
 	"go/token"
 	"go/types"
@@ -20,6 +21,7 @@ func init() {
 			c.run("C13-R4", "WHO-WRITES: the three writers of the relay status", c13R4)
 			c.run("C13-R5", "MUST-PASS: each chunk goes exactly somewhere, on the right side", c13R5)
 			c.run("C13-R6", "LAUNCH: relay pumps, queue consumers and the handshake are started with go", c13Launch)
+			c.run("C13-R7", "LITERAL/SIBLING: every pump reads its own side's stream; the handshake helpers read their own side's parking buffer; errors go to both ends", c13Sides)
 			c.run("C13-R6", "FRESH: pumps read into a fresh buffer every iteration", c13R6)
 			c.run("C13-R7", "PAIR: every exit of the handshake worker flushes", c13R7)
 			c.run("C13-S1", "shared with C03-R2/R3: the handshake line readers consume exactly the bytes of the line they return, so the flush hands on the rest", func(c *Ctx) { c03R2(c); c03R3(c) })
@@ -765,4 +767,51 @@ func c13R7(c *Ctx) {
 		return ok && calleeID(ci.Common()) == "(*trzsz.TrzszRelay).flushHandshakeBuffer"
 	})
 	c.check(hit == nil, "handshake/defer-flush-first", c.ipos(d), "confirm, refuse, malformed ACT and malformed CFG all flush", "an exit of the handshake worker skips the flush", c.pathStr(path)...)
+}
+
+// c13Sides: who reads what, by side. A relay has a client side and a server side; every pump moves bytes from one
+// side to the other and every line helper of the handshake works on its own side's parking buffer:
+//   - the pumps' sources: TrzszRelay.wrapInput reads clientIn, wrapOutput reads serverOut; tunnelRelay.wrapInput reads
+//     clientConn, wrapOutput reads serverConn (the channel each one feeds is checked against its consumer's sink in
+//     C13-R5: client-side source => server-side sink and vice versa);
+//   - recvStringFromClient reads the stdin parking buffer on every path, recvStringFromServer the stdout one;
+//   - sendError tells both ends: one line to the client and one to the server.
+//
+// A same-typed sibling in the wrong place type-checks and reads the other side's bytes back to their sender.
+func c13Sides(c *Ctx) {
+	for _, w := range []struct{ fn, src string }{
+		{"TrzszRelay.wrapInput", "clientIn"}, {"TrzszRelay.wrapOutput", "serverOut"},
+		{"tunnelRelay.wrapInput", "clientConn"}, {"tunnelRelay.wrapOutput", "serverConn"},
+		{"TrzszFilter.wrapInput", "clientIn"}, {"TrzszFilter.wrapOutput", "serverOut"},
+	} {
+		f := c.fn(w.fn)
+		n := 0
+		eachInstr(f, func(in ssa.Instruction) {
+			call, ok := in.(*ssa.Call)
+			if !ok || !call.Call.IsInvoke() || call.Call.Method.Name() != "Read" {
+				return
+			}
+			n++
+			_, fld, okF := fieldOf(call.Call.Value)
+			c.check(okF && fld == w.src, "side/"+w.fn+"/reads-"+w.src, c.ipos(call), "the pump reads its own side's stream", "the pump reads "+fld+" instead of "+w.src+": bytes are sent back to the side they came from")
+		})
+		if n != 1 {
+			c.undecided("side/"+w.fn+"/reads", "expected exactly one Read in the pump")
+		}
+	}
+	for _, w := range []struct{ fn, buf string }{{"TrzszRelay.recvStringFromClient", "stdinBuffer"}, {"TrzszRelay.recvStringFromServer", "stdoutBuffer"}} {
+		f := c.fn(w.fn)
+		n := 0
+		for _, ci := range callsIn(f, idIs("trzsz.recvStringFromBuffer", "trzsz.recvStringForWindows")) {
+			n++
+			_, fld, okF := fieldOf(ci.Common().Args[0])
+			c.check(okF && fld == w.buf, "side/"+w.fn+"/buffer."+shortID(calleeID(ci.Common())), c.ipos(ci), "the handshake reads this side's parking buffer", "the handshake helper reads "+fld+" instead of "+w.buf+": it waits for the other side's line")
+		}
+		if n < 2 {
+			c.undecided("side/"+w.fn+"/buffer", "expected the plain and the Windows reader")
+		}
+	}
+	se := c.fn("TrzszRelay.sendError")
+	toC, toS := len(callsIn(se, idIs("(*trzsz.TrzszRelay).sendStringToClient"))), len(callsIn(se, idIs("(*trzsz.TrzszRelay).sendStringToServer")))
+	c.check(toC == 1 && toS == 1, "side/sendError/both-ends", c.pos(se.Pos()), "a handshake error is reported to the client and to the server", fmt.Sprintf("a handshake error is reported %d time(s) to the client and %d time(s) to the server: one end is not told and waits out its timeout", toC, toS))
 }
